@@ -151,9 +151,11 @@ class IndexedSet(MutableSet):
             num_dead = 1
             while items[-(num_dead + 1)] is _MISSING:
                 num_dead += 1
-            if ded and ded[-1][1] == len(items):
-                del ded[-1]
             del items[-num_dead:]
+            # the trailing dead run may be covered by several adjacent
+            # intervals (_add_dead does not always merge them)
+            while ded and ded[-1][0] >= len(items):
+                del ded[-1]
 
     def _get_real_index(self, index):
         if index < 0:
